@@ -208,6 +208,8 @@ fn run_cfg(cfg: &Cfg, bin: &std::path::Path, rng: &mut Rng, cov: &mut Cov) -> Re
     let mut chain: Vec<(Uuid, Uuid, Vec<u8>)> = vec![];
     let mut parent = Uuid::nil();
     let mut since: Option<u32> = None;
+    // counting convention (is the version being added counted?): either, but consistently
+    let mut conv = (true, true);
     let n1 = 3 + rng.usize(3);
     let total = n1 + 2 + (eff.snapshot_versions.min(6) as usize * 3 / 2);
     let mut snap_data: Option<(Uuid, Vec<u8>)> = None;
@@ -217,8 +219,15 @@ fn run_cfg(cfg: &Cfg, bin: &std::path::Path, rng: &mut Rng, cov: &mut Cov) -> Re
         match r {
             Resp::AddOk { vid, urg } => {
                 let want = spec_urgency(&eff, since.map(|s| (0, s)));
+                let want_after = spec_urgency(&eff, since.map(|s| (0, s + 1)));
                 cov.hit(format!("urgency-by-versions:{urg:?}"));
                 if urg != want {
+                    conv.0 = false;
+                }
+                if urg != want_after {
+                    conv.1 = false;
+                }
+                if !conv.0 && !conv.1 {
                     return Ok(Some(format!("with snapshot-versions={} snapshot-days={} and {} versions since a fresh snapshot, add-version reported {:?} (header {:?}) where the configured targets require {want:?}", eff.snapshot_versions, eff.snapshot_days, since.map(|s| s.to_string()).unwrap_or("no snapshot;".into()), urg, raw.header("X-Snapshot-Request"))));
                 }
                 chain.push((vid, parent, data));
